@@ -73,8 +73,12 @@ def known_findings(pid):
     """Entries of known_findings.jsonl with kind == 'finding' for this property.
     'fixed' entries suppress nothing."""
     out = []
-    p = os.path.join(VERIF, "known_findings.jsonl")
-    if os.path.exists(p):
+    paths = [os.path.join(VERIF, "known_findings.jsonl")]
+    if os.environ.get("VERIF_FINDINGS_EXTRA"):      # development only: proposals not yet merged
+        paths.append(os.environ["VERIF_FINDINGS_EXTRA"])
+    for p in paths:
+        if not os.path.exists(p):
+            continue
         for line in open(p):
             line = line.strip()
             if not line or line.startswith("#") or line.startswith("fixed:"):
